@@ -33,7 +33,8 @@ CHECKS = {
    text=("Totality of every model function is checked by Lean (structural / well-founded recursion; fuel with an explicit `hang` outcome elsewhere). Theorems: the restart loop of cabd_find always advances "
          "and the fuel of the CAB stream feeder (two iterations per remaining block) always suffices, for every cabinet. The decoders' fuel is not yet proved sufficient. "
          "On the implementation every API call's executed control-flow edges are checked against a linear budget in input+output bytes (9x head-room over the measured maximum), with a watchdog, "
-         "on malformed, shipped and pathological inputs; that found the cyclic-CHM hang repaired by f3ee904."),
+         "on malformed, shipped and pathological inputs; that found the cyclic-CHM hang repaired by f3ee904."
+         " Since then proved (C04Loops): with the fuel the entry points pass, the out-of-fuel outcome is unreachable for every input in the LZSS/SZDD/KWAJ, OAB, CHM (headers, fast_find, section 0), KWAJ LZH, MSZIP and LZX loops and the CAB stored-folder loop."),
    note=PROOF_NOTE + " Wall-clock time is not covered; the budget constants are calibrated, not derived.", technique="Lean 4 termination measures + instrumented edge budget and watchdog on the implementation"),
  "C09": dict(category="proof",
    text=("Theorems on effect models of the SZDD, KWAJ and OAB decompressors over an instrumented mspack_system (ledger of live allocations and handles, fault plan, misuse monitor): for every client program (create; any list of decompress / open + extracts + close; destroy), every file content and every fault plan (any set of failing alloc/open/read/write/seek calls) the ledger after the program equals the ledger before it and no misuse is recorded "
@@ -45,12 +46,14 @@ CHECKS = {
  "C10": dict(category="proof",
    text=("(c) proved on the header models for every file content: CAB, SZDD and KWAJ files of at least header length with wrong signature bytes are refused with MSPACK_ERR_SIGNATURE (CHM checked on the implementation). "
          "(a) last_error synchronisation and (b) single host failures are fault enumeration on the implementation: each faulted call must report failure or reproduce the failure-free result exactly. "
-         "Found and repaired: 2d82274, 7e29eec, 332b038, b0be7a7; two residual cases where a read failure is indistinguishable from truncation are listed as known findings."),
+         "Found and repaired: 2d82274, 7e29eec, 332b038, b0be7a7; two residual cases where a read failure is indistinguishable from truncation are listed as known findings."
+         " The signature clause is proved for CHM as well (ITSF signature and both GUIDs, open and fast_open; with the converse)."),
    note=PROOF_NOTE + " (a),(b): enumeration over sampled scenarios, not a theorem.", technique="Lean 4 theorems on header parsers + single-fault enumeration with failure-free reference runs"),
  "C11": dict(category="proof",
    text=("The models take the allocator's fill byte as a parameter wherever the C reads memory it did not write. Theorems: the MSZIP decoder state and hence extraction from stored and MSZIP CAB folders "
          "(any input) do not depend on it. Quantum/LZX/LZH are validated: every scenario under four fill bytes must give identical results, MemorySanitizer with poisoned allocations must stay silent, "
-         "and model and implementation must agree per fill byte. Found and repaired: f814fba, 97e13b8, cc98207, b0cacf5."),
+         "and model and implementation must agree per fill byte. Found and repaired: f814fba, 97e13b8, cc98207, b0cacf5."
+         " Extended to the KWAJ LZH, LZX and Quantum decoders: for every source and every sequence of calls the trace of statuses and written bytes is the same for any two fill bytes (C11Decoders)."),
    note=PROOF_NOTE, technique="Lean 4 (fill-independence of model states) + multi-fill differential runs + MemorySanitizer"),
  "C13": dict(category="proof",
    text=("Theorems on the heap model of cabd_merge: every refusal leaves the heap exactly as it was, and NULL, identical, already-joined, circular and mismatched-split-folder joins are refused with the documented codes. "
@@ -60,7 +63,8 @@ CHECKS = {
    note=PROOF_NOTE, technique="Lean 4 theorems on the merge model + exhaustive join-order enumeration with model agreement"),
  "C20": dict(category="proof",
    text=("Theorem over the call-site inventory regenerated from today's sources: the library's eighteen open() calls pass caller-supplied or stored archive names with fixed modes (READ for archives/patches/bases, WRITE for outputs). "
-         "All other clauses (handle liveness, seek modes, sizes, buffer bounds, copy overlap, free of live/NULL pointers, filename identity) are checked on every callback invocation by the instrumented system over enumerated scenarios and single faults."),
+         "All other clauses (handle liveness, seek modes, sizes, buffer bounds, copy overlap, free of live/NULL pointers, filename identity) are checked on every callback invocation by the instrumented system over enumerated scenarios and single faults."
+         " The handle clauses follow from the ledger theorems on the effect models of all five APIs (C09*)."),
    note=PROOF_NOTE + " Dynamic clauses: enumeration, not a theorem.", technique="Lean 4 decide over regenerated call-site inventory + instrumented-system argument checks under fault enumeration"),
  "C06": dict(category="proof",
    text=("Theorems on the model of oabd.c: a well-formed full file (any block list, block_max, DECOMPBUF >= 1, trailing bytes) decompresses with status OK to exactly the blocks' data, and a well-formed patch applied to a base "
@@ -74,12 +78,14 @@ CHECKS = {
          "(format, missing character, length) and decompress writes exactly the expansion. The models of szddd.c, kwajd.c (headers, all five methods incl. LZH and MSZIP) and lzssd.c are executable Lean and agree with the implementation on generated "
          "files (both SZDD variants, all 64 KWAJ header-flag combinations, all four LZH length encodings, shortest-possible LZH tails) and on the shipped fixtures; the implementation is judged against the plan. "
          "KWAJ headers and the LZH / MSZIP-KWAJ / xor payload round trips are not theorems."
-         " Also proved: C05_szdd_qbasic_roundtrip and C05_kwaj_plain_roundtrip (KWAJ methods 0/1 with all 16 combinations of the length/unknown/extra-text fields: open() reports exactly the fields, decompress() writes exactly the data); the LZSS and KWAJ specification writers are fed to the real library (lzss.spec, kwaj.spec)."),
+         " Also proved: C05_szdd_qbasic_roundtrip and C05_kwaj_plain_roundtrip (KWAJ methods 0/1 with all 16 combinations of the length/unknown/extra-text fields: open() reports exactly the fields, decompress() writes exactly the data); the LZSS and KWAJ specification writers are fed to the real library (lzss.spec, kwaj.spec)."
+         " Also proved: KWAJ LZH with the flat code-length tables round-trips against the specification writer, at decoder and at file level (C05_lzh_flat_roundtrip, C05_kwaj_lzh_roundtrip); for arbitrary codes the statement is false at the end of the stream (observation O2)."),
    note=PROOF_NOTE, technique="Lean 4 theorems (token-level specification, induction over groups of eight with a buffer-refill invariant) + differential execution of the models against the implementation + plan oracle"),
  "C07": dict(category="proof",
    text=("CAB: theorems, generic over the stream decoders' counting law, that extract never hands more than the declared length to the output (any input, strict or salvage, any cached state) "
          "and that in strict mode OK implies exactly the declared length; the counting law is proved for stored folders and is an explicit hypothesis for MSZIP/Quantum/LZX. "
-         "CHM and OAB have no theorem yet. Everything is validated by the written-vs-declared oracle on the implementation (well-formed, malformed, fixtures, short writes, salvage) and model agreement."),
+         "CHM and OAB have no theorem yet. Everything is validated by the written-vs-declared oracle on the implementation (well-formed, malformed, fixtures, short writes, salvage) and model agreement."
+         " CHM: for every file content and section-0 member extract writes at most the declared length, OK means exactly the declared bytes of the file (C07Chm)."),
    note=PROOF_NOTE, technique="Lean 4 theorems (case analysis over cabd_extract's phases + induction for the stored decoder) + written/declared/status oracle on the implementation"),
  "C08": dict(category="proof",
    text=("CAB: theorems that whenever the cached decoder is not re-usable for a request (other folder, backward seek, dead decoder) extract behaves exactly like a fresh instance, and C08_stored_any_order - for a stored folder ANY list of extract() calls on members inside the folder's data (forward through the cached decoder, backward through a rebuilt one, repeated) returns OK with exactly each member's bytes, the fresh-instance result. "
@@ -91,7 +97,8 @@ CHECKS = {
          "the Quantum trailer byte, against the buffer and limit constants extracted from today's cab.h; array dimensions of the decoder tables are those the models assume. "
          "Decoder-internal bounds, CHM/KWAJ/OAB parsing and call-sequence safety are validated, not proved: ASan+UBSan runs over malformed variants of generated archives of all five "
          "formats, the shipped crashers and guard-directed constructions, with model/implementation agreement on statuses. Found and repaired on the way: c13e5b8, 004b113, a66a89b."
-         " Also: make_decode_table's acceptance rule (model Huff.accepts) is compared with the three instantiations on the ten shapes their callers use, and the same code-length vectors are fed through MSZIP and KWAJ LZH streams; found and repaired: 797f74d (use-after-free after joining a multi-folder cabinet with a PREV_AND_NEXT entry)."),
+         " Also: make_decode_table's acceptance rule (model Huff.accepts) is compared with the three instantiations on the ten shapes their callers use, and the same code-length vectors are fed through MSZIP and KWAJ LZH streams; found and repaired: 797f74d (use-after-free after joining a multi-folder cabinet with a PREV_AND_NEXT entry)."
+         " Memory safety is now a theorem on the decoder models: the out-of-bounds (null-dereference, shift-width, division, uninitialised-table) outcomes are unreachable for every input and every sequence of calls in the LZSS, KWAJ header, KWAJ LZH, MSZIP, LZX (under LenStable and stream position < 2^31) and Quantum decoders and in the CHM layer (readHeaders, fastFind: no fault at all; extract: only what the LZX decoder passes on)."),
    note=PROOF_NOTE + " Sanitizers see heap/stack/global object bounds, not sub-object overflows inside one allocation.",
    technique="Lean 4 theorems on the block reader/feeder model + sanitizer-instrumented differential fuzzing of malformed inputs"),
  "C01": dict(category="proof",
@@ -100,7 +107,8 @@ CHECKS = {
          "container model hard-codes. The container model (headers, block reader with reserves/split blocks/checksums, feeder, extract, merge) and the stored and MSZIP decoders "
          "are executable Lean and agree with the implementation on every generated plan (all methods, block types, windows, reserves, split sets, parameter settings, both systems); "
          "the implementation is judged against the plan itself (listing and bytes). Bit-level decoder round trips are not theorems yet."
-         " Since then proved: C01_headers_roundtrip (cabd_read_headers on the specification writer's bytes lists exactly the specified folders and files, any prefix, strict and salvage) and C01_stored_extract (for every list of well-formed CFDATA blocks of a stored folder, every member, every DECOMPBUF, a first extract() returns OK and exactly the member's bytes); the writer is itself fed to the real cabd_open."),
+         " Since then proved: C01_headers_roundtrip (cabd_read_headers on the specification writer's bytes lists exactly the specified folders and files, any prefix, strict and salvage) and C01_stored_extract (for every list of well-formed CFDATA blocks of a stored folder, every member, every DECOMPBUF, a first extract() returns OK and exactly the member's bytes); the writer is itself fed to the real cabd_open."
+         " MSZIP: for every frame the deflate specification writer lays out from stored and fixed-Huffman blocks (literals and matches of every length and distance class) the decoder model returns exactly the specified data (C01Mszip); the writer is fed to the real decoder."),
    note=PROOF_NOTE + " Quantum's arithmetic coder has no independent specification (the generator's encoder inverts qtmd.c).",
    technique="Lean 4 (decide +kernel over regenerated tables; executable model) + plan-oracle and model/implementation differential runs"),
  "C18": dict(category="proof",
@@ -114,7 +122,8 @@ CHECKS = {
    text=("Theorems on the model of cabd_find: the result is independent of the search-buffer size (every n>=1), the restart logic always advances "
          "(termination), every reported cabinet parses as a cabinet at its reported offset (no false positives), and completeness - C14_finds_planted: a cabinet behind any bytes that do not contain the signature MSCF (any prefix of it allowed, also directly in front of the cabinet) with plausible length fields is the first cabinet search() reports, any buffer size, strict or salvage. "
          "Several cabinets and look-alike headers in the filler are checked by the implementation-side oracle and model/implementation agreement on generated files with partial and fake signatures; "
-         "that oracle found the defect repaired by commit 586d1d8 (cabinet preceded by M/MS/MSC)."),
+         "that oracle found the defect repaired by commit 586d1d8 (cabinet preceded by M/MS/MSC)."
+         " C14_finds_all_planted: junk/cabinet/junk/... with signature-free junk and cabinets of at least 20 bytes whose length field equals their extent: find returns exactly the planted cabinets in order."),
    note=PROOF_NOTE, technique="Lean 4 theorems by functional induction over the scanner model + differential runs (search results) + planted-cabinet oracle"),
  "C19": dict(category="proof",
    text=("Mechanism-level theorem: the inventory of writable static objects regenerated from today's objects (nm) and sources is exactly four never-written objects, "
